@@ -1,61 +1,61 @@
-"""Per-property configuration of ./check: which harness families feed a property, how many
-cases per tier, which disagreements/oracle failures belong to it, what counts as non-trivial."""
+"""Per-property configuration of ./check, loaded from tools/propcfg/<Cxx>.json.
+
+Each config: {
+  "families": [{"name": fam, "quick": n, "thorough": n, "args": [...]?}],
+  "hist_keys": [tag names histogrammed into evidence],
+  "rule": text, "trusted_base": [extra entries], "assumptions": [...],
+  "owns": {fam: [diff kinds (tag dk) of DIFF results that belong to this property]}   # "*" = all
+  "panic_is_failure": bool   # an implementation panic (dk=panic) is directly a property failure
+}
+Conventions for driver result lines (lean/Driver/Proto.lean):
+  res <id> ok|DIFF|ORACLE|BADCASE tag=value... | message
+  tag nt=<comma separated property ids>  : the case is non-trivial for these properties
+  tag dk=<kind>                          : kind of model/implementation disagreement (DIFF)
+  tag of=<comma separated property ids>  : properties whose oracle failed on the implementation (ORACLE)
+  tag near=1                             : a model decision sits within 1e-9 of its threshold (skipped)
+"""
+import glob
+import json
+import os
+
+HERE = os.path.dirname(os.path.abspath(__file__))
 
 COMMON_TB = [
     "Lean 4.33 kernel; axioms propext, Classical.choice, Quot.sound only (audited by #print axioms on every run)",
-    "tools/extract.py (regex translator of constants; each pattern must match exactly once)",
-    "correspondence check: harness generators + 1e-9 comparison in the Lean driver (lean/Driver)",
-    "modelled, not verified: rust_decimal representation/rounding/overflow, csv/time/regex crates, std HashMap order",
+    "tools/extract.py (regex translator of constants/tables from /repo source; each pattern must match exactly once)",
+    "correspondence check: harness generators + comparison in the Lean driver (lean/Driver); a behaviour no generated case exercises is invisible to the tie",
 ]
 
-LEDGER_ASSUME = [
-    "exact rational arithmetic in the model; the implementation's rust_decimal results are compared at 1e-9",
-    "input numeric fields: at most 10 decimal places, magnitude below 1e12",
-]
-
-
-def fam(name, quick, thorough, args=None):
-    return {"name": name, "quick": quick, "thorough": thorough, "args": args}
-
-
-PROPS = {
-    "C01": {
-        "families": [fam("ledger", 3000, 150000)],
-        "hist_keys": ["n", "affs", "reg", "sfl", "splits", "out"],
-        "rule": "ledger family: generated single-security histories (1-40 rows, 1-4 affiliates, 0-2 registered, CAD/USD/other "
-                "currencies, separate commission currency, fractional shares, same-day clusters, splits with non-terminating "
-                "factors, optional opening status) through txs_to_delta_list; a case is non-trivial if it has >= 3 rows and at "
-                "least one sale with a cost base; distinct = distinct input rows",
-        "trusted_base": COMMON_TB,
-        "assumptions": LEDGER_ASSUME,
-    },
-}
+PROPS = {}
+for f in sorted(glob.glob(os.path.join(HERE, "propcfg", "C*.json"))):
+    c = json.load(open(f))
+    pid = os.path.basename(f)[:-5]
+    c["trusted_base"] = COMMON_TB + c.get("trusted_base", [])
+    c.setdefault("assumptions", [])
+    c.setdefault("hist_keys", [])
+    c.setdefault("owns", {})
+    PROPS[pid] = c
 
 
 def nontrivial(pid, fam, tags):
-    if fam == "ledger":
-        try:
-            n = int(tags.get("n", "0"))
-        except ValueError:
-            n = 0
-        if pid in ("C01",):
-            return n >= 3 and tags.get("sells", "1") != "0"
-        return n >= 3
-    return True
+    nt = tags.get("nt")
+    if nt is None:
+        return True
+    return pid in nt.split(",")
 
 
-# Which property does a non-ok result of a family belong to?
-#  ORACLE results name the properties whose oracle failed in tag `of`.
-#  DIFF results carry tag `dk` (diff kind).
-LEDGER_DK = {"status": "C01", "sfl": "C02", "outcome": "C04", "panic": "C05"}
+def owner_of(fam, dk):
+    for pid, c in PROPS.items():
+        kinds = c["owns"].get(fam)
+        if kinds and (dk in kinds or "*" in kinds):
+            return pid
+    return "?"
 
 
 def attribute(fam, r):
     if r["verdict"] == "ORACLE":
         return r["tags"].get("of", "?")
-    if fam == "ledger":
-        return LEDGER_DK.get(r["tags"].get("dk", ""), "C01")
-    return "?"
+    return owner_of(fam, r["tags"].get("dk", ""))
 
 
 def relevant(pid, fam, r):
@@ -63,11 +63,11 @@ def relevant(pid, fam, r):
     if r["verdict"] == "ORACLE":
         return "oracle" if pid in r["tags"].get("of", "").split(",") else None
     if r["verdict"] == "DIFF":
-        if fam == "ledger":
-            owner = LEDGER_DK.get(r["tags"].get("dk", ""), "C01")
-            if owner == pid:
-                # an implementation panic is directly a failure of C05
-                return "oracle" if r["tags"].get("dk") == "panic" else "diff"
-            return None
-        return "diff"
+        dk = r["tags"].get("dk", "")
+        kinds = PROPS[pid]["owns"].get(fam, [])
+        if dk in kinds or "*" in kinds:
+            if dk == "panic" and PROPS[pid].get("panic_is_failure"):
+                return "oracle"
+            return "diff"
+        return None
     return None
